@@ -187,6 +187,23 @@ func (c *Ctx) mustConst(pkg, name string) int64 {
 	return v
 }
 
+// mustConstString: the value of a string constant of the repository (undecided when it is not there).
+func (c *Ctx) mustConstString(pkg, name string) string {
+	var scope *types.Scope
+	if p := c.W.Pkg(pkg); p != nil {
+		scope = p.Pkg.Scope()
+	} else if p := c.W.ByPath[pkg]; p != nil && p.Types != nil {
+		scope = p.Types.Scope()
+	}
+	if scope != nil {
+		if k, ok := scope.Lookup(name).(*types.Const); ok && k.Val().Kind() == constant.String {
+			return constant.StringVal(k.Val())
+		}
+	}
+	c.Undecided("anchor:const:"+pkg+"."+name, "-", "string constant not found")
+	return "\x00missing"
+}
+
 // methodsOf lists in-scope functions whose receiver is the named type rel.typ (incl. closures inside).
 func (w *World) methodsOf(rel, typ string) []*ssa.Function {
 	var out []*ssa.Function
